@@ -169,6 +169,8 @@ class World:
     # ---- actions; each returns the event fields it measured (without proj)
     def make(self, d, fam, kind, name, obs, entry, ghi=False):
         frame, kw = lifecat.build(fam, kind, name, obs, ghi=ghi)
+        if entry == "dtcol":            # timestamps handed over as a `datetime` column instead of the index
+            frame = frame.rename_axis("datetime").reset_index()
         self.ext[d] = frame
         before = hash_frame(frame)
         cls = getattr(em(), FAMS[fam][1 if kind == "baseline" else 2])
